@@ -682,6 +682,10 @@ impl RocksDBStateMachine {
         let cf = db
             .cf_handle(STATE_MACHINE_CF)
             .ok_or_else(|| StorageError::DbError("STATE_MACHINE_CF not found".into()))?;
+        // Load the revision BEFORE the iterator takes its view of the data: apply_chunk writes the
+        // data first and publishes last_applied afterwards, so everything up to `revision` is visible
+        // to the iterator (the data may be newer than the revision, never older).
+        let revision = self.last_applied_index.load(Ordering::SeqCst);
         let iter = db.iterator_cf_opt(&cf, opts, IteratorMode::From(prefix, Direction::Forward));
 
         let mut entries = Vec::new();
@@ -698,7 +702,6 @@ impl RocksDBStateMachine {
             f();
         }
 
-        let revision = self.last_applied_index.load(Ordering::SeqCst);
         Ok(ScanResult { entries, revision })
     }
 
